@@ -91,6 +91,9 @@ abbrev Batch := List Group
 
 structure St where
   batchSz : Nat := 1
+  /-- what-if switch used only by a witness theorem: a streamer that keeps the index.
+  The tree (and the driver) has `false`. -/
+  keepIdx : Bool := false
   hwm : Nat := 0
   batcher : List Group := []
   fifo : Q Batch := {}
@@ -165,7 +168,7 @@ def offerHwm (s : St) (n : Nat) : St :=
   else followerHwm s n
 
 def applyEntry (s : St) (e : Entry) : St :=
-  (streamEntry e).foldl feedGroup s
+  (streamEntryWith s.keepIdx e).foldl feedGroup s
 
 inductive Op where
   | entry (e : Entry)            -- a log entry is applied (also appended to the log)
